@@ -169,6 +169,11 @@ def derivations(kind):
         d += ["Path_subpath", "copy_subpath", "mul_subpath", "add_str", "add_seg"]
     if kind == "Group":
         d += ["Group", "mul", "abs"]
+    # operands for which the operator has nothing to do: the result must still be a separate object
+    if kind in ["Point", "Matrix", "Group", "Text", "Image"] + SEGS + SHAPES:
+        d += ["mul_id", "mul_idstr"]
+    if kind in SHAPES + ["Group", "Text", "Image"]:
+        d += ["abs_abs"]
     return d
 
 
@@ -188,6 +193,12 @@ def derive(ctx, kind, how, obj, x, extras=None, before=None):
         return obj * m if how == "mul" else obj @ m
     if how == "mulstr":
         return obj * "scale(2) translate(3,4)"
+    if how == "mul_id":
+        return obj * S.Matrix()
+    if how == "mul_idstr":
+        return obj * "scale(1) translate(0,0)"
+    if how == "abs_abs":
+        return abs(abs(obj))
     if how == "add":
         if kind == "Point":
             other = S.Point(x(), x())
